@@ -493,6 +493,101 @@ def family_wrap_body():
         yield dict(op='ast', input=t, also=('ast', 'And(%s, Action(Quit))' % t), expect='body = (and E (print-relative-path)) with E the text of the tree itself', bad=bad)
 
 
+def family_grammar(n=None):
+    """C03 / C17 (bounded): grammar-aware generation — `n` pseudo-random expressions (fixed seed VERIF_SEED) over every keyword the
+    parser knows, operators and parentheses, with numeric arguments drawn from boundary values (0, 2^31, 2^32, 2^53, 2^55, 2^63,
+    2^64 ± 1, 10^30, leading zeros, 40-digit runs), octal and symbolic modes of every length, format strings mixing every
+    directive letter, escapes and octal codes, and words over the hostile alphabet. bad = a panic (and, for C17, any difference
+    between the two builds)."""
+    import random
+    if n is None:
+        n = 200000 if TIER == 'thorough' else 20000
+    rnd = random.Random(int(os.environ.get('VERIF_SEED', '0') or 0) * 7919 + 17)
+    nums = [0, 1, 7, 8, 9, 255, 256, 511, 512, 4095, 4096, 65535, 65536, 2 ** 24, 2 ** 31 - 1, 2 ** 31, 2 ** 32 - 1, 2 ** 32, 2 ** 32 + 1, 2 ** 53, 2 ** 54, 2 ** 55 - 1,
+            2 ** 55, 2 ** 55 + 1, 2 ** 63 - 1, 2 ** 63, 2 ** 64 - 1, 2 ** 64, 2 ** 64 + 1, 10 ** 30, int('9' * 40)]
+    words = ['x', 'a*', '[ab]?', 'a"b', "it's", 'café', '€\U0001F600', 'a\\b', '{mdt}', '~a', '%s', 'user.attr', 'lustre', 'out.txt', '/tmp/f', 'x' * 60, 'é' * 48, '-', '--', '(', ')a', ',', '!', '0', '-1']
+
+    def num():
+        v = rnd.choice(nums) + rnd.choice((0, 0, 0, 1, -1 if rnd.random() < .5 else 0))
+        v = max(v, 0)
+        return rnd.choice(('', '', '', '+', '-')) + rnd.choice(('', '', '0', '000')) + str(v)
+
+    def word():
+        w = rnd.choice(words)
+        if any(c in w for c in ' ()\n') or w[:1] in '"\'':
+            return ("'%s'" % w) if "'" not in w else ('"%s"' % w)
+        return w if rnd.random() < .7 else (("'%s'" % w) if "'" not in w else ('"%s"' % w))
+
+    def mode():
+        r = rnd.random()
+        if r < .45:
+            return ''.join(rnd.choice('01234567') for _ in range(rnd.choice((1, 2, 3, 3, 4, 4, 5, 6, 10, 11, 12, 13, 16, 22, 23, 30))))
+        cl = []
+        for _ in range(rnd.choice((1, 1, 2, 3, 4))):
+            cl.append(''.join(rnd.sample('ugoa', rnd.choice((0, 1, 1, 2, 3)))) + rnd.choice('+-=') + ''.join(rnd.sample('rwxXst', rnd.choice((0, 1, 2, 3)))))
+        return ','.join(cl)
+
+    def fmt():
+        out = []
+        for _ in range(rnd.choice((0, 1, 2, 3, 5, 8))):
+            r = rnd.random()
+            if r < .35:
+                out.append('%' + rnd.choice('%abcdDfFgGhHiklmMnpPsStuUyYZ'))
+            elif r < .45:
+                out.append('%' + rnd.choice('ACT') + rnd.choice('@HIklMprSTZ+XaAbBcdDhjmUwWxyY"~\\'))
+            elif r < .5:
+                out.append('%{' + rnd.choice(('fid', 'projid', 'mirror-count', 'stripe-count', 'stripe-size', 'xattr:user.a', 'xattr:', 'xattr:a"b', 'nosuch')) + '}')
+            elif r < .75:
+                out.append('\\' + rnd.choice(('a', 'b', 'c', 'f', 'n', 'r', 't', 'v', '0', '\\', '1', '12', '123', '1234', '377', '400', '777', '8', 'x', 'q')))
+            else:
+                out.append(rnd.choice(('a', 'hello', '~', '~a', '"', '%', '\\', ' ', 'é', '{}', ')')))
+        f = ''.join(out)
+        return ('"%s"' % f) if '"' not in f else (("'%s'" % f) if "'" not in f else 'f')
+    cmp32 = ['-uid', '-gid', '-inum', '-mirror-count', '-stripe-count', '-links', '-threads', '-maxdepth', '-mindepth']
+    times = ['-atime', '-mtime', '-ctime', '-amin', '-mmin', '-cmin']
+    strs = ['-name', '-iname', '-path', '-ipath', '-pool', '-xattr', '-regex', '-iregex', '-user', '-group', '-fstype', '-samefile', '-lname', '-ilname', '-anewer',
+            '-cnewer', '-mnewer', '-fprint', '-fprint0', '-fls']
+    bare = ['-empty', '-executable', '-readable', '-writable', '-true', '-false', '-nouser', '-nogroup', '-print', '-print0', '-ls', '-quit', '-prune',
+            '-print-file-fid', '-depth', '-xdev', '-notanoption', 'stray']
+
+    def primary():
+        r = rnd.random()
+        if r < .2:
+            return rnd.choice(cmp32) + ' ' + num()
+        if r < .3:
+            return rnd.choice(times) + ' ' + num()
+        if r < .42:
+            return '-size ' + num() + rnd.choice(('', '', 'c', 'w', 'b', 'k', 'M', 'G', 'T', 'K', 'kb'))
+        if r < .55:
+            return '-perm ' + rnd.choice(('', '', '-', '/', '+')) + mode()
+        if r < .62:
+            return '-type ' + ','.join(rnd.choice('bcdpflsDx') for _ in range(rnd.choice((1, 1, 2, 3, 7))))
+        if r < .78:
+            return rnd.choice(strs) + ' ' + word()
+        if r < .82:
+            return '-xattr-match ' + word() + ' ' + word()
+        if r < .9:
+            return rnd.choice(('-printf ', '-fprintf out ')) + fmt()
+        return rnd.choice(bare)
+
+    def expr(d):
+        r = rnd.random()
+        if d <= 0 or r < .4:
+            return primary()
+        if r < .5:
+            return rnd.choice(('! ', '-not ')) + expr(d - 1)
+        if r < .6:
+            return '( ' + expr(d - 1) + ' )'
+        return expr(d - 1) + rnd.choice((' ', ' -a ', ' -and ', ' -o ', ' -or ', ' , ')) + expr(d - 1)
+    seen = set()
+    while len(seen) < n:
+        e = expr(rnd.choice((0, 1, 2, 3, 4)))
+        if e in seen or len(e.encode()) >= 4096:
+            continue
+        seen.add(e)
+        yield dict(op='compile', input=e, expect='a program or an error value, never a panic', bad=lambda g: g[0] == 'PANIC')
+
+
 def family_refusal():
     atoms = [('-true', {}), ('-name x', {}), ('-print', {}), ('-regex r', {'bad': True}), ('-ls', {'bad': True}), ('nope', {'bad': True}),
              ('-printf "%p"', {}), ('-printf "%Z"', {'bad': True})]
@@ -1049,7 +1144,7 @@ def family_hostile():
 
 GENERATED = {
     'BOUNDED.clock_window': family_clock, 'C07.time_comp.text': family_clock,
-    'BOUNDED.parse_perm': family_perm, 'BOUNDED.parse_options': family_options, 'BOUNDED.parse_total': family_parse_total, 'BOUNDED.parse_numbers': family_parse_numbers,
+    'BOUNDED.parse_perm': family_perm, 'BOUNDED.parse_options': family_options, 'BOUNDED.parse_total': (family_parse_total, family_grammar), 'BOUNDED.parse_numbers': family_parse_numbers,
     'ASSUME.printer_map': family_table, 'C10.table.keys': family_table,
     'C09.top.wrap_decision': family_wrap, 'C19.action.iff': family_wrap, 'C09.emit.structure': family_wrap,
     'C12.refusal.iff': family_refusal, 'C12.top.iff': family_refusal,
@@ -1075,7 +1170,7 @@ FAMILY_RULES = [
      (family_table, family_long, family_determinism, family_ast_structure)),
     (r'^C12\.', (family_refusal, family_ast_refusal)),
     (r'^C09\.|^C19\.action', (family_wrap, family_wrap_body)),
-    (r'^SAFETY\.|^C11\.budget', (family_panics, family_long, family_ast, family_perm)),
+    (r'^SAFETY\.|^C11\.budget', (family_panics, family_long, family_ast, family_perm, family_grammar)),
     (r'^C08\.|^KANI\.c08', (family_perm,)),
     (r'^C04\.(placeholder|literal|snippet|format)|^C03\.type_list|^C07\.(size|time)|^C08\.', (family_ast_refusal, family_ast_structure)),
 ]
@@ -1151,7 +1246,8 @@ BOUNDED_STANDINS = {
              'stand-in: 1..3 options out of {-depth, -threads 2, -threads 8} inserted at every word boundary of 4 base expressions; the options returned '
              'carry the last value of each and the tree is that of the expression with misplaced options read as -true')],
     'C03': [('BOUNDED.parse_total', 'BOUNDED.parse_total', 'find_parser::parse incl. ParserError::dispatch (outside the verifier) — bounded stand-in: every prefix and '
-             'four single-character mutations at every position of 6 valid inputs, and long / non-ASCII words after 12 keywords: never a panic')],
+             'four single-character mutations at every position of 6 valid inputs, long / non-ASCII words after 12 keywords, and 20,000 (thorough: 200,000) '
+             'grammar-generated expressions over every keyword with boundary numbers, modes and format strings (parsed and compiled): never a panic')],
     'C07': [('BOUNDED.parse_numbers', 'BOUNDED.parse_numbers', 'the digit-run conversions of find_parser (winnow try_map over str::parse: outside the verifier) — bounded '
              'stand-in: decimal arguments around 0, 2^31, 2^32, 2^64 and 10^30 for every numeric primary, with signs and leading zeros: exact in the tree or rejected')],
     'C08': [('BOUNDED.parse_perm', 'BOUNDED.parse_perm', 'PermCheck::parse / Permission::parse (winnow alt/preceded/separated over the verified clause code: outside the verifier) — '
@@ -1175,7 +1271,7 @@ def profile_agreement(repo, scratch):
         f['witness_error'] = 'could not build both profiles'
         return f
     reqs, seen = [], set()
-    for fam in (family_parse_total, family_parse_numbers, family_options, family_numbers, family_refusal, family_hostile, family_table, family_panics, family_long, family_ast, family_perm):
+    for fam in (family_parse_total, family_parse_numbers, family_options, family_numbers, family_refusal, family_hostile, family_table, family_panics, family_long, family_ast, family_perm, family_grammar):
         for c in fam():
             for op_, inp_ in [(c['op'], c['input'])] + ([c['also']] if c.get('also') else []) + list(c.get('also3', ())):
                 r = (op_,) + tuple(inp_.split('\t'))
@@ -1200,7 +1296,7 @@ def bounded_standins(pid, repo, scratch):
     if pid == 'C17':
         f = profile_agreement(repo, scratch)
         out.append(('BOUNDED.profile_agreement', 'debug and release builds of the library (front end included: outside the verifier) — bounded stand-in: both '
-                    'builds must answer identically on the corpora of the other stand-ins and witness families (about 30k parse/compile requests)', f))
+                    'builds must answer identically on the corpora of the other stand-ins and witness families (about 70k parse/compile/tree requests per build in the quick tier)', f))
     for name, key, claim in BOUNDED_STANDINS.get(pid, []):
         f = dict(id=name, clause=key, kind='bounded', fn=claim.split(' (')[0], cfg='replay',
                  message=claim, rendered='', repo_file=None, repo_line=None, expr='')
